@@ -108,6 +108,9 @@ impl TaikoGradualPerformance {
     /// `n=1` will process 2, and so on.
     #[allow(clippy::missing_panics_doc, reason = "technically false positive")]
     pub fn nth(&mut self, state: TaikoScoreState, n: usize) -> Option<TaikoPerformanceAttributes> {
+        // Process at most all remaining objects
+        let n = n.min(self.difficulty.len().saturating_sub(1));
+
         let performance = self
             .difficulty
             .nth(n)?
